@@ -112,8 +112,9 @@ WellFormedPattern(kws) ==
      \A j \in (i + 1)..Len(kws) : MayFollow(kws, i, j) => ~Confusable(kws[i], kws[j])
 
 (* keyword names of the supported grammar: upper-case letters then lower-case letters *)
-GoodName(name) == /\ ShortLen(name) >= 1
-                  /\ \A i \in 1..Len(name) : IF i <= ShortLen(name) THEN IsUpper(name[i]) ELSE IsLower(name[i])
+GoodName(name) == /\ ShortLen(name) >= 1 /\ IsUpper(name[1])
+                  /\ \A i \in 1..Len(name) : IF i <= ShortLen(name) THEN IsUpper(name[i]) \/ IsDigit(name[i]) \/ name[i] = 95      \* digits and '_' may be part of the short form (IP4address, CH_Bank)
+                                                ELSE IsLower(name[i])
 
 -----------------------------------------------------------------------------
 (* The design of the matcher: walk the keywords once, left to right.  At   *)
